@@ -21,9 +21,11 @@
       fields, boosts and prefixes makes it rejected"                C20_complete
 
    Remarks (observations, not part of a statement):
-     * `wellformed` follows the property's list: the expression of a field must be a value (word,
-       phrase, fuzzy, proximity, boost, field group).  The checker also refuses `f:[1 TO 2]`,
-       `f:/re/`, `f:>3` with "field expression is not valid" (examples below).
+     * `wellformed` follows the property's list: the expression of a field must be a value: a word,
+       a phrase, a regex, their ~ / ^ forms, a range, a comparison, or a field group (the generated
+       FIELD_EXPR_FIELDS; ranges, comparisons and regexes since fix ad2a5df of /repo, see the regression
+       example C20_field_range_accepted).  A range bound is a word or a phrase, possibly with the `-`
+       the grammar allows.
      * a NoneItem placeholder is not a well-formed construct: the checker answers
        "Unknown item type NoneItem". *)
 Require Import Base Decimal Tree GenTree GenVisitors GenCheck Visitor Lexer Check TreeInd CheckProofs.
